@@ -11,6 +11,7 @@ from ..errors import AnalysisError
 from ..interp import Hooks, Interp, Intrinsic, Obj, SimRaise
 from ..nf import Rat
 from . import solverkit, solvers, steps
+from .autograd_kit import AutogradModel
 
 SRK_FILE = "torchsde/_core/methods/srk.py"
 BASE_SDE = "torchsde/_core/base_sde.py"
@@ -163,14 +164,20 @@ def gdg_wiring(ctx, rule):
                   "returns (g v1, sum_l jvp(g[:, l], y, g[:, l] v2_l))")
 
 
-class FwdHooks(solverkit.StepHooks):
-    """Hooks for evaluating ForwardSDE's own methods: autograd helpers are opaque linear maps."""
+class FwdHooks(AutogradModel, solverkit.StepHooks):
+    """Hooks for evaluating ForwardSDE's own methods: misc.vjp / misc.jvp are evaluated from their own bodies on top of
+    the autograd model (autograd_kit); what they are called with is recorded."""
 
     def __init__(self):
-        super().__init__(2)
+        solverkit.StepHooks.__init__(self, 2)
+        self.ag_init()
         self.autograd_calls = []
+        self._in_helper = False
 
     def external_call(self, interp, dotted, args, kwargs, node, fi):
+        r = self.ag_external_call(interp, dotted, args, kwargs, node, fi)
+        if r is not NotImplemented:
+            return r
         if dotted == "torch.is_grad_enabled":
             return True
         if dotted == "torch.bmm":
@@ -180,6 +187,9 @@ class FwdHooks(solverkit.StepHooks):
         return NotImplemented
 
     def tensor_attr(self, interp, recv, name, node, fi):
+        r = self.ag_tensor_attr(interp, recv, name, node, fi)
+        if r is not NotImplemented:
+            return r
         if name == "requires_grad":
             return False
         return NotImplemented
@@ -188,19 +198,14 @@ class FwdHooks(solverkit.StepHooks):
         from ..interp import Closure
         if isinstance(callee, Closure) and callee.fi is not None and callee.fi.module.relpath.endswith("misc.py"):
             nm = callee.fi.name
-            if nm == "vjp":
-                outputs, inputs = kwargs.get("outputs", args[0] if args else None), kwargs.get("inputs")
-                go = kwargs.get("grad_outputs")
-                self.autograd_calls.append(("vjp", kwargs, node))
-                if isinstance(inputs, (list, tuple)):
-                    return [nf.linear("VJP", (Rat.lift(outputs).key(), Rat.lift(i).key()), Rat.lift(go))
-                            for i in inputs]
-                return [nf.linear("VJP", (Rat.lift(outputs).key(), Rat.lift(inputs).key()), Rat.lift(go))]
-            if nm == "jvp":
-                outputs, inputs = kwargs.get("outputs"), kwargs.get("inputs")
-                gi = kwargs.get("grad_inputs")
-                self.autograd_calls.append(("jvp", kwargs, node))
-                return [nf.linear("JVP", (Rat.lift(outputs).key(), Rat.lift(inputs).key()), Rat.lift(gi))]
+            if nm in ("vjp", "jvp") and not self._in_helper:
+                # record the call site, then evaluate the helper's own body (its return convention is part of the code)
+                self.autograd_calls.append((nm, kwargs, node))
+                self._in_helper = True
+                try:
+                    return interp.call_function(callee.fi, list(args), dict(kwargs))
+                finally:
+                    self._in_helper = False
             if nm == "batch_mvp":
                 return nf.bilinear("mvp", args[0], args[1])
         return NotImplemented
